@@ -199,46 +199,29 @@ def commandBody (sub : String) (args : List String) (c : Col) : Except Err Strin
     | _ => .ok ""
   | _ => .ok ""
 
-/-- `MixCommand` (since 940cd78): the base colour is read once, at the first colour, and cached in
-the command object (`cached`); the fraction is evaluated for every colour; then
-`mix(base, color, Fraction::from(1 − F))` in the named space. `args = [base, fraction,
-colorspace]`; the base may itself be `-` (one stdin line, consumed once). -/
-def mixBody (args : List String) (cached : Option Col) (c : Col) (stdin : List StdinLine) :
-    Except Err String × List StdinLine × Option Col :=
+/-- `MixCommand` (since 60725f5 a command of its own, not a per-colour one): the base colour — the
+first positional argument, possibly `-` (one stdin line) — and the fraction are read first; then
+every colour (arguments, or stdin lines when there are none) is mixed:
+`mix(base, color, Fraction::from(1 − F))` in the named space. `args = [base, fraction, colorspace]`. -/
+def runMix (args : List String) (colors : List String) (stdin : List StdinLine) : Outcome :=
   match args with
   | [base, fr, sp] =>
-    -- the base is read once (at the first colour) and reused
-    let got : Except Err Col × List StdinLine := match cached with
-      | some b => (.ok b, stdin)
-      | none => colorFromArg base stdin
-    match got with
-    | (.error e, stdin') => (.error e, stdin', none)
+    match colorFromArg base stdin with
+    | (.error e, _) => { lines := [], err := some e }
     | (.ok b, stdin') =>
       match numberArg fr with
-      | .error e => (.error e, stdin', some b)
+      | .error e => { lines := [], err := some e }
       | .ok f =>
         let space : Space := match sp.toLower with
           | "rgb" => .rgb | "hsl" => .hsl | "lch" => .lch | "oklab" => .oklab | _ => .lab
-        (.ok (showColor (mix space b c (fraction (1.0 - f)))), stdin', some b)
-  | _ => (.ok "", stdin, cached)
-
-/-- The loop for `mix` over positional colours (the base may consume one stdin line, once). -/
-def loopMixArgs (args : List String) (cached : Option Col) : List String → List StdinLine → Outcome
-  | [], _ => { lines := [], err := none }
-  | a :: rest, stdin =>
-    match colorFromArg a stdin with
-    | (.error e, _) => { lines := [], err := some e }
-    | (.ok c, stdin') =>
-      match mixBody args cached c stdin' with
-      | (.error e, _, _) => { lines := [], err := some e }
-      | (.ok line, stdin'', cached') =>
-        let o := loopMixArgs args cached' rest stdin''
-        { lines := line :: o.lines, err := o.err }
+        let cmd : Col → Except Err String := fun c => .ok (showColor (mix space b c (fraction (1.0 - f))))
+        if colors.isEmpty then loopStdin cmd stdin' else loopArgs cmd colors stdin'
+  | _ => { lines := [], err := none }
 
 /-- The whole run of a modelled subcommand: colours from the arguments if there are any,
 otherwise from stdin (which is a pipe). -/
 def run (sub : String) (args : List String) (colors : List String) (stdin : List StdinLine) : Outcome :=
-  if sub = "mix" ∧ !colors.isEmpty then loopMixArgs args none colors stdin
+  if sub = "mix" then runMix args colors stdin
   else if colors.isEmpty then loopStdin (commandBody sub args) stdin
   else loopArgs (commandBody sub args) colors stdin
 
